@@ -338,7 +338,7 @@ def sErr : Err → String
   | .syntax => "err syntax" | .value => "err value" | .unknown => "err unknown" | .dup => "err dup"
   | .dupOneof => "err dupOneof" | .dupKey => "err dupKey" | .dupEntry => "err dupEntry" | .depth => "err depth"
   | .badExt => "err badExt" | .byNumber => "err byNumber" | .badNum => "err badNum" | .noSep => "err noSep"
-  | .utf8 => "err utf8" | .delegated => "err delegated"
+  | .utf8 => "err utf8" | .delegated => "err delegated" | .panic => "err panic"
 
 structure St where
   X : SchemaX := { msgs := [] }
